@@ -188,14 +188,103 @@ def run_c07(tier, deadline):
     return outcome
 
 
+# ------------------------------------------------------------------------------- C08, C09, C10
+SHAPES_GROUPS = {"dir_NoLabel": 0, "und_NoLabel": 1, "dir_int": 2, "und_int": 3, "dir_string": 4, "und_string": 5, "dmulti": 6, "umulti": 6,
+                 "dweighted": 7, "uweighted": 7, "dir_struct": 8, "und_struct": 8}
+
+
+def shapes_build(group):
+    return Build("shapes_g%d" % group, "harness/shapes.cpp", flags=["-O2", "-DGROUP=%d" % group])
+
+
+PLAIN6 = ["dir_NoLabel", "und_NoLabel", "dir_int", "und_int", "dir_string", "und_string"]
+ALL10 = PLAIN6 + ["dmulti", "umulti", "dweighted", "uweighted"]
+SHAPES_PLANS = {
+    "C08": {
+        "quick": [(c, "n2", []) for c in ALL10] + [("dir_NoLabel", "n3", []), ("und_NoLabel", "n3", [])] +
+                 [(c, "n3d3", []) for c in ("dir_int", "und_int", "dmulti", "umulti", "dweighted", "uweighted")] +
+                 [("dir_NoLabel", "e2n4", ["--nofiles"]), ("und_NoLabel", "e2n5", ["--nofiles"]), ("dmulti", "e2n3", []), ("umulti", "e2n3", []), ("dweighted", "e2n3", []), ("uweighted", "e2n3", [])],
+        "thorough": [(c, "n2", []) for c in ALL10] + [(c, "n3", []) for c in ALL10] +
+                    [("dir_NoLabel", "e2n4", []), ("und_NoLabel", "e2n5", []), ("dir_int", "e2n4", ["--nofiles"]), ("und_int", "e2n5", ["--nofiles"]),
+                     ("dmulti", "e2n4", ["--nofiles"]), ("umulti", "e2n5", ["--nofiles"]), ("dweighted", "e2n4", ["--nofiles"]), ("uweighted", "e2n5", ["--nofiles"])],
+    },
+    "C09": {
+        "quick": [(c, "n2", []) for c in PLAIN6] + [("dir_NoLabel", "n3", []), ("und_NoLabel", "n3", [])] + [(c, "n3d3", []) for c in ("dir_int", "und_int", "dir_string", "und_string")] +
+                 [(c, "ctor", ["--len", "2"]) for c in ALL10 + ["dir_struct", "und_struct"]],
+        "thorough": [(c, "n2", []) for c in PLAIN6] + [(c, "n3", []) for c in PLAIN6] + [(c, "ctor", ["--len", "3"]) for c in ALL10 + ["dir_struct", "und_struct"]],
+    },
+    "C10": {
+        "quick": [(c, "n2", []) for c in PLAIN6] + [("dir_NoLabel", "n3", []), ("und_NoLabel", "n3", [])] + [(c, "n3d3", []) for c in ("dir_int", "und_int", "dir_string", "und_string")] +
+                 [("dir_NoLabel", "e2n4", ["--noloops"]), ("und_NoLabel", "e2n4", []), ("dir_int", "e2n3", []), ("und_int", "e2n4", [])],
+        "thorough": [(c, "n2", []) for c in PLAIN6] + [("dir_NoLabel", "n3", []), ("und_NoLabel", "n3", [])] + [(c, "n3d4", []) for c in ("dir_int", "und_int", "dir_string", "und_string")] +
+                    [("dir_NoLabel", "e2n4", []), ("und_NoLabel", "e2n5", []), ("dir_int", "e2n4", []), ("und_int", "e2n5", [])],
+    },
+}
+SHAPES_RULE = {
+    "C08": "case = one graph (a reachable state of the E1 search on <=3 vertices, every insertion order; or every edge set on 4 (directed) / 5 (undirected) vertices built in ascending, descending and swapped order): "
+           "vertex range-for, edges() by pre-/post-increment, repeated traversal, begin()==end(), multiset of edges vs. model, and every operation defined by edge enumeration (in-degrees, adjacency matrix, "
+           "reversal, conversions, text and binary writers) must be defined and right. Non-trivial = the graph has at least one edge.",
+    "C09": "case = one graph state (E1 search, all labellings over a 2-value alphabet, with setEdgeLabel in the histories) checked for reversal, reversal twice, directed<->undirected conversions, copies; "
+           "or one edge sequence of length <= L over indices {0,1,2,4} x values, with repeats, passed to the edge-list constructor in vector/list/deque/forward_list/set/multiset and compared with one-at-a-time insertion. "
+           "Non-trivial = graph with an edge / sequence of at least two edges.",
+    "C10": "case = (graph, vertex subset S [, a preceding rejected call with an out-of-range member and subset T]): getSubgraph and getSubgraphWithRemap compared with the induced subgraph of the model "
+           "(remap: any bijection S -> 0..|S|-1). Graphs = E1 states on <=3 vertices (all insertion orders, labellings) and every edge set on 4-5 vertices; all 2^n subsets. "
+           "Non-trivial = the induced subgraph has an edge and differs from the whole graph.",
+}
+
+
+def run_shapes(prop, tier, deadline):
+    import shutil
+    outcome = Outcome(prop, tier, "exploration")
+    plan = SHAPES_PLANS[prop][tier]
+    builds = {}
+    for cfg, _, _ in plan:
+        g = SHAPES_GROUPS[cfg]
+        builds[g] = shapes_build(g)
+    built = build_all(list(builds.values()))
+    if compile_failures(outcome, built):
+        outcome.coverage = {"evaluations": 1, "distinct_nontrivial": 0, "rule": "harness did not compile", "samples": ["compile failure"]}
+        return outcome
+    workdir = os.path.join(build_dir(), "work-%s-%s-%d" % (prop, tier, os.getpid()))
+    jobs = []
+    for k, (cfg, variant, extra) in enumerate(plan):
+        tmpd = os.path.join(workdir, "t%d" % k)
+        os.makedirs(tmpd, exist_ok=True)
+        jobs.append(Job(builds[SHAPES_GROUPS[cfg]], ["--prop", prop, "--config", cfg, "--variant", variant, "--tier", tier, "--tmpdir", tmpd] + extra,
+                        label="%s/%s" % (cfg, variant), timeout=deadline + 300, deadline=deadline))
+    run_jobs(jobs, built, workdir)
+    results = collect(outcome, jobs, built)
+    shutil.rmtree(workdir, ignore_errors=True)
+    per = {}
+    for r in results:
+        per[r.get("config", "?")] = {"cases": r.get("counters", {}).get("cases", 0), "states": r.get("counters", {}).get("states", 0),
+                                     "shapes": r.get("counters", {}).get("shapes", 0), "exhaustive": r.get("exhaustive", True)}
+    outcome.coverage = {
+        "evaluations": sum_counter(results, "cases"),
+        "distinct_nontrivial": sum_counter(results, "nontrivial_cases"),
+        "rule": SHAPES_RULE[prop],
+        "samples": gather_samples(results, 8),
+        "e1_states": sum_counter(results, "states"),
+        "e1_transitions": sum_counter(results, "transitions"),
+        "e2_shapes": sum_counter(results, "shapes"),
+        "ctor_cases": sum_counter(results, "ctor_cases"),
+        "clause_evaluations": sum_counter(results, "clause_evaluations"),
+        "configurations": per,
+    }
+    outcome.assumptions = ["bounded scope as listed per configuration; reference model mc/model.hpp; g++ -O2"]
+    return outcome
+
+
 PLANS = {}
+for _p in SHAPES_PLANS:
+    PLANS[_p] = (lambda prop: (lambda tier, deadline: run_shapes(prop, tier, deadline)))(_p)
 PLANS["C07"] = run_c07
 for _p in E1_PLANS:
     PLANS[_p] = (lambda prop: (lambda tier, deadline: run_e1(prop, tier, deadline)))(_p)
 
 
 def all_builds():
-    bs = [e1_build(g) for g in range(8)] + [c07_build(g) for g in range(10)]
+    bs = [e1_build(g) for g in range(8)] + [c07_build(g) for g in range(10)] + [shapes_build(g) for g in range(9)]
     return bs
 
 
